@@ -483,7 +483,9 @@ class NDNApp:
         :type name: :any:`NonStrictName`
         """
         name = Name.normalize(name)
-        del self._prefix_tree[name]
+        # A prefix registered without a handler (``register(name, None)``) has no entry to remove
+        if name in self._prefix_tree:
+            del self._prefix_tree[name]
         async with self._prefix_register_semaphore:
             try:
                 _, _, reply = await self.express_interest(
